@@ -144,10 +144,44 @@ def run(ctx) -> None:
     ok = len(fdef) == 1 and unparse(fdef[0]) == "PATTERN_PART_FIELDS[part_name]"
     ctx.check("R4", ok, "_iter_part_patterns: group name is PATTERN_PART_FIELDS[part_name]", "v2patterns._iter_part_patterns: capture group is not named after the part's field",
               f"{[unparse(f) for f in fdef]}", loc=ipp.loc())
-    fstrs = [n for n in ast.walk(ipp.node) if isinstance(n, ast.JoinedStr)]
-    named = [unparse(f) for f in fstrs]
-    ok2 = any("(?P<{field}>{part_pattern})" in s for s in named)
-    ctx.check("R4", ok2, "_iter_part_patterns emits (?P<field>part_pattern)", "v2patterns._iter_part_patterns: named group shape changed", f"{named}", loc=ipp.loc())
+    # the substituted text is (?P<field>part_pattern), possibly with a numeric suffix for a repeated field
+    subst = [v for _st, tg, v in shapes.iter_assigns(ipp.node) if isinstance(tg, ast.Name) and tg.id == "named_part_pattern"]
+    shapes_ok = bool(subst)
+    folded = []
+    env0 = {"field": "F", "part_pattern": "P", "used_fields": [], "part_name": "N", "PATTERN_PART_FIELDS": {"N": "F"}}
+
+    def alternatives(e: ast.AST, depth: int = 0) -> T.List[T.Optional[str]]:
+        """Fold e; names with several plain definitions (one per branch) are tried one by one."""
+        multi = []
+        for x in ast.walk(e):
+            if isinstance(x, ast.Name) and x.id not in env0 and x.id not in ipp.all_params:
+                ds = [v_ for _s, v_ in shapes.local_defs(ipp, x.id) if v_ is not None]
+                if ds and x.id not in multi:
+                    multi.append(x.id)
+        if not multi or depth > 3:
+            try:
+                return [prog.fold(ipp.module, e, dict(env0))]
+            except AnalysisError:
+                return [None]
+        name = multi[0]
+        out_: T.List[T.Optional[str]] = []
+        import copy
+        for _s, d in shapes.local_defs(ipp, name):
+            if d is None:
+                out_.append(None)
+                continue
+
+            class Sub(ast.NodeTransformer):
+                def visit_Name(self, node: ast.Name) -> ast.AST:
+                    return copy.deepcopy(d) if node.id == name else node
+            out_ += alternatives(Sub().visit(copy.deepcopy(e)), depth + 1)
+        return out_
+    for v in subst:
+        alts = alternatives(v)
+        folded += alts
+        shapes_ok = shapes_ok and all(t in ("(?P<F>P)", "(?P<F_0>P)") for t in alts)
+    ok2 = shapes_ok and "(?P<F>P)" in folded
+    ctx.check("R4", ok2, "_iter_part_patterns emits (?P<field>part_pattern)", "v2patterns._iter_part_patterns: named group shape changed", f"{folded}", loc=ipp.loc())
     loop = [n for n in walk_no_nested(ipp.node) if isinstance(n, ast.For)]
     ctx.check("R4", len(loop) == 1 and unparse(loop[0].iter) == "PART_PATTERNS.items()", "_iter_part_patterns iterates all of PART_PATTERNS",
               "v2patterns._iter_part_patterns: not all parts are substituted", "", loc=ipp.loc())
@@ -156,10 +190,12 @@ def run(ctx) -> None:
         f = prog.function(fq)
         ctx.visit(fq)
         for n in ast.walk(f.node):
-            if isinstance(n, ast.Subscript) and isinstance(n.value, ast.Name) and n.value.id in ("fvals", "field_values") and const_str(n.slice):
+            if isinstance(n, ast.Subscript) and const_str(n.slice):
                 read_keys.add(const_str(n.slice))
-            if isinstance(n, ast.Call) and isinstance(n.func, ast.Attribute) and n.func.attr == "get" and unparse(n.func.value) in ("fvals", "field_values") and n.args and const_str(n.args[0]):
-                read_keys.add(const_str(n.args[0]))
+            if isinstance(n, ast.Call):
+                for a_ in n.args:
+                    if const_str(a_):
+                        read_keys.add(const_str(a_))
     for fld in sorted(set(fields.values())):
         ctx.check("R4", fld in read_keys, f"field '{fld}' is read back from the match groups", f"v2version: field '{fld}' is captured but never read back",
                   f"keys read: {sorted(read_keys)}", loc="src/bumpver/v2version.py")
